@@ -18,7 +18,7 @@ import (
 	"github.com/elastos/Elastos.ELA/core/types/interfaces"
 )
 
-var sim = &regnet.Sim{Name: "c06", Maturity: 2}
+var sim = &regnet.Sim{Name: "c06", Maturity: 2, OwnArbiter: true}
 var pending *hx.Violation
 
 // spendCheck judges the implementation alone: on the chain the node reports as active every
@@ -154,6 +154,26 @@ func history(g *hx.Gen, steps int) {
 		}
 		return tx
 	}
+	// a side-chain mining proof in the original format: a SideChainPow transaction with inputs, payload
+	// signed by the on-duty arbiter (account 0 is the only origin arbiter of this node)
+	spCount := 0
+	rawSP := func(ins []regnet.Coin, out regnet.Out, sideGenesis string) interfaces.Transaction {
+		spCount++
+		ts := &regnet.TxSpec{Kind: "sp", Nonce: fmt.Sprintf("%016x", uint64(1<<44)+uint64(spCount)),
+			PHashes: []string{fmt.Sprintf("%016x", uint64(r.Intn(1<<30))|1<<52), sideGenesis}}
+		ts.PDatas = []string{sim.N.SideChainPowSig(0, ts.PHashes[0], ts.PHashes[1])}
+		for _, c := range ins {
+			ts.Ins = append(ts.Ins, regnet.InSpec{TxID: c.ID, Index: uint16(c.Idx)})
+		}
+		ts.Outs = []regnet.OutSpec{{Addr: out.To, Value: int64(out.Value), Pay: "-"}}
+		_, th := sim.N.Tip()
+		tx, err := sim.N.BuildTx(ts, th+1)
+		if err != nil {
+			panic("harness: " + err.Error())
+		}
+		return tx
+	}
+	sideChains := []string{"00000000000000a1", "00000000000000a2"}
 	pickCoin := func(br *regnet.Branch) *regnet.Coin {
 		var cs []regnet.Coin
 		tip := sim.BranchTip(br)
@@ -259,6 +279,29 @@ func history(g *hx.Gen, steps int) {
 				continue
 			}
 		}
+		if c >= 88 && c < 96 && len(active.Blocks) >= 4 { // pool: side-chain mining proofs and the outpoints they spend
+			if co := pickCoin(active); co != nil {
+				out := regnet.Out{To: r.Intn(5), Value: common.Fixed64(co.Value - 600)}
+				switch r.Intn(4) {
+				case 0: // a transfer first, then a proof spending the same coin: conflict
+					submit(raw(co.Addr, []regnet.Coin{*co}, []regnet.Out{out}))
+					submit(rawSP([]regnet.Coin{*co}, out, sideChains[r.Intn(2)]))
+				case 1: // the proof first, then the transfer
+					submit(rawSP([]regnet.Coin{*co}, out, sideChains[r.Intn(2)]))
+					submit(raw(co.Addr, []regnet.Coin{*co}, []regnet.Out{out}))
+				case 2: // two proofs for one side chain on different coins: the second evicts the first
+					submit(rawSP([]regnet.Coin{*co}, out, sideChains[0]))
+					if c2 := pickCoin(active); c2 != nil {
+						submit(rawSP([]regnet.Coin{*c2}, regnet.Out{To: 1, Value: common.Fixed64(c2.Value - 700)}, sideChains[0]))
+					}
+				default: // proofs for different side chains on the same coin: conflict
+					submit(rawSP([]regnet.Coin{*co}, out, sideChains[0]))
+					submit(rawSP([]regnet.Coin{*co}, out, sideChains[1]))
+				}
+			}
+			h.Observe(true, 8)
+			continue
+		}
 		switch {
 		case c >= 96 && len(spent) > 0: // two inputs: the first unspent, the second already spent on the active chain
 			if co := pickCoin(active); co != nil {
@@ -327,6 +370,29 @@ func history(g *hx.Gen, steps int) {
 					pair = []interfaces.Transaction{t2, t1}
 				}
 				deliver(active, h.Block(active, pair))
+			}
+		case c < 72: // the same, delivered before its parent: the orphan pool must not take unchecked blocks
+			if co := pickCoin(active); co != nil {
+				parent := h.HonestBlock(active, 1)
+				pbr := regnet.Extend(active, parent)
+				used := false
+				for _, tx := range parent.Transactions[1:] {
+					for _, in := range tx.Inputs() {
+						if regnet.ID(in.Previous.TxID) == co.ID && int(in.Previous.Index) == co.Idx {
+							used = true
+						}
+					}
+				}
+				if !used {
+					t1 := raw(co.Addr, []regnet.Coin{*co}, []regnet.Out{{To: 1, Value: common.Fixed64(co.Value - 300)}})
+					t2 := raw(co.Addr, []regnet.Coin{*co}, []regnet.Out{{To: 2, Value: common.Fixed64(co.Value - 400)}})
+					child := h.Block(pbr, []interfaces.Transaction{t1, t2})
+					deliver(pbr, child)
+					br := active
+					if strings.HasPrefix(deliver(active, parent), "main") {
+						noteSpent(parent, br)
+					}
+				}
 			}
 		case c < 74: // one transaction listing the same input twice
 			if co := pickCoin(active); co != nil {
